@@ -29,6 +29,7 @@ func rulesC11(c *Ctx) {
 		"NOT decided: the arithmetic of the thresholds themselves (that total/required are computed from the right member subsets), straggler/liveness accounting, timeout scheduling — values, not shapes.")
 	ix := c.P.BuildIndex()
 	c11Round3(c)
+	c11Round4(c)
 	normalK, okK := c.ConstInt("roothash/api/block", "Normal")
 	if !okK {
 		c.Undecided("C11.outcome", "anchor:block.Normal", "", "constant roothash/api/block.Normal not found")
